@@ -17,7 +17,7 @@ pub const REQUIRED: &[&str] = &[
     "alphabet.dna", "alphabet.protein", "source.from_sequences", "source.raw_counts", "pseudo.scalar", "pseudo.zero",
     "pseudo.per_symbol", "bg.uniform", "bg.dyadic", "bg.zero_entries", "bg.from_counts", "bg.from_sequence",
     "base.2", "base.10", "base.e", "base.3.7", "route.one_step", "route.two_step", "route.rescale",
-    "invalid.unequal_lengths", "invalid.freq_row_sum", "invalid.bg_out_of_range", "invalid.bg_sum", "invalid.bg_nan",
+    "invalid.unequal_lengths", "invalid.freq_row_sum", "invalid.bg_out_of_range", "invalid.bg_negative_sum_one", "invalid.bg_sum", "invalid.bg_nan",
     "windows.bracketed", "class.neg_inf_score",
 ];
 
@@ -496,6 +496,37 @@ fn run_case<A: Alphabet>(case: u64, rng: &mut Rng, rep: &mut Report, alpha: &str
         let mut v = base_bg.clone();
         v[rng.below(k - 1)] = 1.5;
         checks.push((v, "frequency above one", "invalid.bg_out_of_range"));
+        // a single violated condition: one negative entry, compensated so that the total is still
+        // exactly one (dyadic values) and every other entry stays inside [0,1]
+        for _ in 0..3 {
+            let mut v = base_bg.clone();
+            let i = rng.below(k);
+            let mut j = rng.below(k - 1);
+            if j == i {
+                j = (j + 1) % (k - 1);
+            }
+            if j != i {
+                let d = *rng.pick(&[0.0625f32, 0.125, 0.25]);
+                let vi = v[i];
+                v[j] += vi + d;
+                v[i] = -d;
+                if v[j] <= 1.0 && (v.iter().map(|&x| x as f64).sum::<f64>() - 1.0).abs() < 1e-12 {
+                    checks.push((v, "negative frequency compensated so that the sum is exactly one", "invalid.bg_negative_sum_one"));
+                }
+            }
+        }
+        let mut v = base_bg.clone();
+        {
+            let i = rng.below(k - 1);
+            let mut j = rng.below(k - 1);
+            if j == i {
+                j = (j + 1) % (k - 1);
+            }
+            let rest: f32 = 1.0 - v[i] - v[j];
+            v[i] = 1.25;
+            v[j] = -0.25 - rest;
+            checks.push((v, "frequency above one compensated by a negative one", "invalid.bg_out_of_range"));
+        }
         let mut v = base_bg.clone();
         v[rng.below(k)] = f32::NAN;
         checks.push((v, "NaN frequency", "invalid.bg_nan"));
